@@ -172,11 +172,20 @@ func TestPropGauges(t *testing.T) {
 					coins = sdk.NewCoins(coin("uosmo", amt("u")), coin("rwd", amt("r")))
 				}
 				start := c.Ctx.BlockTime()
-				switch rapid.IntRange(0, 2).Draw(rt, "startKind") {
+				switch rapid.IntRange(0, 4).Draw(rt, "startKind") {
 				case 0:
 					start = start.Add(-time.Hour)
 				case 1:
 					start = start.Add(time.Duration(rapid.Int64Range(1, int64(20*24*time.Hour)).Draw(rt, "startIn")))
+				case 2, 3:
+					// exactly the block time of the k-th next epoch end (and its +-1ns neighbours): "active at its start time"
+					ei := c.App.EpochsKeeper.GetEpochInfo(c.Ctx, epochID)
+					end := ei.CurrentEpochStartTime.Add(ei.Duration).Add(time.Second)
+					if !end.After(c.Ctx.BlockTime()) {
+						end = c.Ctx.BlockTime().Add(time.Second)
+					}
+					start = end.Add(time.Duration(rapid.IntRange(0, 3).Draw(rt, "startEpochs")) * ei.Duration).Add(time.Duration(rapid.IntRange(-1, 1).Draw(rt, "startNs")))
+					cs.Class("start-on-epoch-block-time")
 				}
 				m := &types.MsgCreateGauge{IsPerpetual: perpetual, Owner: chain.Actor(owner).String(), DistributeTo: lockuptypes.QueryCondition{LockQueryType: lockuptypes.ByDuration, Denom: lockDenom, Duration: dur}, Coins: coins, StartTime: start, NumEpochsPaidOver: n}
 				r := c.Exec(m)
